@@ -1,7 +1,241 @@
 package main
 
-import "verif/checker/internal/report"
+import (
+	"encoding/json"
+	"fmt"
+	"os"
+	"os/exec"
+	"path/filepath"
+	"sort"
+	"strings"
+	"sync"
+
+	"verif/checker/internal/report"
+)
+
+// control is one entry of controls/controls.json.
+type control struct {
+	Name   string              `json:"name"`
+	Patch  string              `json:"patch"`  // path relative to /verif
+	Kind   string              `json:"kind"`   // "breaking" (rules must fire) or "neutral" (nothing may fire)
+	Expect map[string][]string `json:"expect"` // property -> rules that must report a finding
+	Note   string              `json:"note,omitempty"`
+}
+
+func subRun(repo string, goarch, tags string, rules []string) ([]*report.Rule, error) {
+	self, err := os.Executable()
+	if err != nil {
+		return nil, err
+	}
+	cmd := exec.Command(self, "rule", strings.Join(rules, ","), "--json")
+	cmd.Env = append(os.Environ(), "VERIF_GOARCH="+goarch, "VERIF_TAGS="+tags)
+	if repo != "" {
+		cmd.Env = append(cmd.Env, "VERIF_REPO="+repo)
+	}
+	out, err := cmd.Output()
+	if err != nil {
+		if ee, ok := err.(*exec.ExitError); ok && len(out) == 0 {
+			return nil, fmt.Errorf("%v: %s", err, string(ee.Stderr))
+		}
+	}
+	var rs []*report.Rule
+	if jerr := json.Unmarshal(out, &rs); jerr != nil {
+		return nil, fmt.Errorf("cannot parse sub-run output: %v (%s)", jerr, trunc(string(out), 200))
+	}
+	return rs, nil
+}
+
+func trunc(s string, n int) string {
+	if len(s) > n {
+		return s[:n] + "…"
+	}
+	return s
+}
+
+func findingKeys(rs []*report.Rule) []string {
+	var ks []string
+	for _, r := range rs {
+		for _, f := range r.Findings {
+			ks = append(ks, f.Key())
+		}
+	}
+	sort.Strings(ks)
+	return ks
+}
+
+func scratchCopy(patch string) (string, func(), error) {
+	base := os.Getenv("TMPDIR")
+	if base == "" {
+		base = os.TempDir()
+	}
+	dir, err := os.MkdirTemp(base, "verif-control-")
+	if err != nil {
+		return "", nil, err
+	}
+	cleanup := func() { os.RemoveAll(dir) }
+	src := os.Getenv("VERIF_REPO")
+	if src == "" {
+		src = "/repo"
+	}
+	if out, err := exec.Command("rsync", "-a", "--exclude", ".git", src+"/", dir+"/").CombinedOutput(); err != nil {
+		cleanup()
+		return "", nil, fmt.Errorf("rsync: %v %s", err, out)
+	}
+	cmd := exec.Command("patch", "-p1", "-s", "--no-backup-if-mismatch", "-i", patch)
+	cmd.Dir = dir
+	if out, err := cmd.CombinedOutput(); err != nil {
+		cleanup()
+		return "", nil, fmt.Errorf("patch does not apply: %s", trunc(string(out), 200))
+	}
+	return dir, cleanup, nil
+}
 
 func thoroughImpl(id string, prop Property, base []*report.Rule) (map[string]interface{}, []string, []report.Finding) {
-	return map[string]interface{}{}, nil, nil
+	extra := map[string]interface{}{}
+	var infra []string
+	var findings []report.Finding
+	baseKeys := findingKeys(base)
+
+	// (a) 32-bit int, (b) with the hook build tag: same rules, findings must agree
+	type cfg struct{ name, goarch, tags string }
+	var cfgRes []map[string]interface{}
+	for _, c := range []cfg{{"GOARCH=386", "386", ""}, {"-tags verif", "", "verif"}} {
+		rs, err := subRun("", c.goarch, c.tags, prop.Rules)
+		entry := map[string]interface{}{"config": c.name}
+		if err != nil {
+			infra = append(infra, fmt.Sprintf("configuration %s: %v", c.name, err))
+			entry["error"] = err.Error()
+			cfgRes = append(cfgRes, entry)
+			continue
+		}
+		keys := findingKeys(rs)
+		obl := 0
+		for _, r := range rs {
+			obl += r.Obligations
+			infra = append(infra, r.Infra...)
+			for _, f := range r.Findings {
+				findings = append(findings, f)
+			}
+		}
+		entry["obligations"] = obl
+		entry["findings"] = keys
+		entry["agrees_with_default"] = strings.Join(keys, "|") == strings.Join(baseKeys, "|")
+		cfgRes = append(cfgRes, entry)
+	}
+	extra["configurations"] = cfgRes
+
+	// (c) control corpus
+	var ctrls []control
+	b, err := os.ReadFile(filepath.Join(verifDir(), "controls", "controls.json"))
+	if err != nil {
+		infra = append(infra, "controls/controls.json: "+err.Error())
+		return extra, infra, findings
+	}
+	if err := json.Unmarshal(b, &ctrls); err != nil {
+		infra = append(infra, "controls/controls.json: "+err.Error())
+		return extra, infra, findings
+	}
+	ruleSet := map[string]bool{}
+	for _, r := range prop.Rules {
+		ruleSet[r] = true
+	}
+	type outcome struct {
+		name, status, detail string
+	}
+	var mu sync.Mutex
+	var outs []outcome
+	sem := make(chan struct{}, 8)
+	var wg sync.WaitGroup
+	for _, c := range ctrls {
+		c := c
+		want := c.Expect[id]
+		if c.Kind == "breaking" && len(want) == 0 {
+			continue // this control does not concern the property
+		}
+		wg.Add(1)
+		go func() {
+			defer wg.Done()
+			sem <- struct{}{}
+			defer func() { <-sem }()
+			rec := func(status, detail string) {
+				mu.Lock()
+				outs = append(outs, outcome{c.Name, status, detail})
+				mu.Unlock()
+			}
+			dir, cleanup, err := scratchCopy(filepath.Join(verifDir(), c.Patch))
+			if err != nil {
+				rec("skipped", err.Error())
+				return
+			}
+			defer cleanup()
+			rs, err := subRun(dir, "", "", prop.Rules)
+			if err != nil {
+				rec("error", err.Error())
+				return
+			}
+			fired := map[string]bool{}
+			var all []string
+			for _, r := range rs {
+				for _, f := range r.Findings {
+					if engineConcerns(f, id) {
+						fired[r.ID] = true
+						all = append(all, f.Key())
+					}
+				}
+			}
+			switch c.Kind {
+			case "neutral":
+				if len(all) > 0 {
+					rec("FALSE-ALARM", strings.Join(all, "; "))
+				} else {
+					rec("silent", "")
+				}
+			default:
+				var missing []string
+				for _, w := range want {
+					if ruleSet[w] && !fired[w] {
+						missing = append(missing, w)
+					}
+				}
+				if len(missing) > 0 {
+					rec("NOT-DETECTED", "rules that should fire: "+strings.Join(missing, ","))
+				} else {
+					rec("detected", strings.Join(want, ","))
+				}
+			}
+		}()
+	}
+	wg.Wait()
+	sort.Slice(outs, func(i, j int) bool { return outs[i].name < outs[j].name })
+	var list []map[string]string
+	counts := map[string]int{}
+	for _, o := range outs {
+		list = append(list, map[string]string{"control": o.name, "status": o.status, "detail": o.detail})
+		counts[o.status]++
+		switch o.status {
+		case "NOT-DETECTED":
+			infra = append(infra, fmt.Sprintf("control %s: a rule of %s no longer fires on a change it is known to catch (%s)", o.name, id, o.detail))
+		case "FALSE-ALARM":
+			infra = append(infra, fmt.Sprintf("control %s: behaviour-preserving edit raises an alarm for %s: %s", o.name, id, o.detail))
+		case "error":
+			infra = append(infra, fmt.Sprintf("control %s: %s", o.name, o.detail))
+		}
+	}
+	extra["controls"] = list
+	extra["control_summary"] = counts
+	return extra, infra, findings
+}
+
+// engineConcerns: in a sub-run the per-finding property restriction is not available (it lives in
+// the sub-process); the sub-process encodes it in the finding's Property field.
+func engineConcerns(f report.Finding, prop string) bool {
+	if f.Property == "" {
+		return true
+	}
+	for _, p := range strings.Split(f.Property, ",") {
+		if p == prop {
+			return true
+		}
+	}
+	return false
 }
